@@ -480,6 +480,25 @@ def hostile(acc, ctx, spec):
         if any(ske.Decrypt(key, x) != m for x in a[:4] + b[:4]):
             acc.violation("aes:roundtrip:forked", "a ciphertext produced in a forked worker does not decrypt", {})
             break
+    # ---- (d2) a fresh cipher object per encryption (an application that constructs its cipher per call), messages up
+    # to and past 4 KiB / 64 KiB: the first encryption of every object is as random as any other
+    for kl in KEY_LENGTHS:
+        key = rng.randbytes(kl)
+        for n in (0, 15, 16, 1000, 4079, 4080, 4095, 4096, 4097, 8192, 65520, 65536, 70001):
+            m = rng.randbytes(n)
+            cts = [cls(key_length=kl).Encrypt(key, m) for _ in range(4)]
+            acc.count("hostile.fresh_object_encryptions", 4)
+            acc.count("cases")
+            if len(set(cts)) != 4 or len({c[:16] for c in cts}) != 4:
+                acc.violation("aes:not-randomized:first-encryption-of-fresh-objects",
+                              f"four fresh cipher objects encrypted one ({kl}-byte key, {n}-byte message) pair: "
+                              f"{4 - len({c[:16] for c in cts})} initialisation vectors coincide",
+                              {"key": key, "message_length": n, "hostile": True})
+                break
+            if any(cls(key_length=kl).Decrypt(key, c) != m for c in cts[:2]):
+                acc.violation("aes:roundtrip:fresh-objects", f"a fresh object cannot decrypt a {n}-byte message of "
+                                                             f"another fresh object", {"hostile": True})
+                break
     # ---- (e) twin interpreters: two fresh processes that agree on the wall-clock second, pid, hash seed, environment
     from vlib import twin
     for f in range(spec.get("twins", 2)):
